@@ -99,6 +99,9 @@ func (fr *frame) runDefer(d *deferred) {
 			if pa, is := r.(pathAbort); is {
 				panic(pa)
 			}
+			if sa, is := r.(specAbort); is {
+				panic(sa)
+			}
 			fr.panicking = true
 			fr.panic = r
 		}
@@ -573,6 +576,9 @@ func (c *Ctx) runFrame(fr *frame) {
 		r := recover()
 		if pa, ok := r.(pathAbort); ok {
 			panic(pa)
+		}
+		if sa, ok := r.(specAbort); ok {
+			panic(sa)
 		}
 		if _, ok := r.(targetPanic); !ok {
 			// engine limitation or Go runtime error inside the interpreter: the path is inconclusive
